@@ -1,7 +1,7 @@
 (* C02 — the cost copies of Avl/Cost.v compute the same results as the model's
    find / add / remove and make at most one comparator call per level of the
    tree; on a height-balanced tree that is at most 1.4405*log2(n+2) calls. *)
-From Typ Require Import Lib.Base Avl.Model Avl.Balance Avl.Fib Avl.Cost.
+From Typ Require Import Lib.Base Avl.Model Avl.Balance Avl.Fib Avl.BalanceHist Avl.Cost.
 Local Open Scope Z_scope.
 
 Section CostProofs.
@@ -107,6 +107,44 @@ Proof.
   split; [apply contains_cost_fst|]. split; [apply add_cost_fst|]. split; [apply remove_cost_fst|].
   split; [lia|]. split; [lia|]. split; [lia|].
   intros Ha. repeat split; apply calls_log; assumption.
+Qed.
+
+(* ---- Tree level and histories: the comparator calls of an Add / Remove / Contains issued
+   after ANY history, on any handle, are at most one per level of the tree the op starts
+   from, hence at most 1.4405*log2(Len+2); [op_calls] is what Avl/Check.v compares exactly
+   with the calls counted on the real code ---- *)
+Lemma Tree_calls_le (t : Tree (A:=A)) value :
+  (Tree_Contains_calls eqb cmp t value <= levels (root t))%nat /\
+  (Tree_Add_calls cmp t value <= levels (root t))%nat /\
+  (Tree_Remove_calls eqb cmp t value <= levels (root t))%nat.
+Proof.
+  unfold Tree_Contains_calls, Tree_Add_calls, Tree_Remove_calls.
+  pose proof (contains_cost_snd value (root t)). pose proof (add_cost_snd value (root t)).
+  pose proof (remove_cost_snd value (root t)).
+  destruct (root t); [cbn [levels]; lia|]. lia.
+Qed.
+
+Theorem history_calls ops h value (t : Tree (A:=A)) :
+  nth_error (fst (run_history eqb cmp ops)) h = Some t ->
+  let ts := fst (run_history eqb cmp ops) in
+  op_calls eqb cmp ts (OpContains h value) = Some (Tree_Contains_calls eqb cmp t value) /\
+  op_calls eqb cmp ts (OpAdd h value) = Some (Tree_Add_calls cmp t value) /\
+  op_calls eqb cmp ts (OpRemove h value) = Some (Tree_Remove_calls eqb cmp t value) /\
+  Z.of_nat (Tree_Contains_calls eqb cmp t value) <= height (root t) + 1 /\
+  Z.of_nat (Tree_Add_calls cmp t value) <= height (root t) + 1 /\
+  Z.of_nat (Tree_Remove_calls eqb cmp t value) <= height (root t) + 1 /\
+  2 ^ (10000 * Z.of_nat (Tree_Contains_calls eqb cmp t value)) <= (Tree_Len t + 2) ^ 14405 /\
+  2 ^ (10000 * Z.of_nat (Tree_Add_calls cmp t value)) <= (Tree_Len t + 2) ^ 14405 /\
+  2 ^ (10000 * Z.of_nat (Tree_Remove_calls eqb cmp t value)) <= (Tree_Len t + 2) ^ 14405.
+Proof.
+  intros Hn ts. subst ts.
+  destruct (history_inv eqb cmp ops h t Hn) as [[Ha _] Hs].
+  destruct (Tree_calls_le t value) as (H1 & H2 & H3).
+  unfold op_calls. rewrite Hn. cbn [option_map].
+  split; [reflexivity|]. split; [reflexivity|]. split; [reflexivity|].
+  rewrite height_levels. split; [lia|]. split; [lia|]. split; [lia|].
+  unfold Tree_Len. rewrite Hs.
+  repeat split; apply calls_log; assumption.
 Qed.
 
 End CostProofs.
